@@ -43,6 +43,10 @@ def check(ctx):
     from . import c12
     c12.interrupted_flag(ctx, P, views, iters)
     c01.linear_node(ctx, P, views, iters)
+    c07.fifo(ctx, P, views, iters)
+    from ..rules import Pairing, check_pairing
+    obp = ctx.ob("R2.pop", "node population counter changes exactly with individuals[*] on every path of every method (a drifting counter ends in list.remove / index errors)")
+    check_pairing(ctx, obp, P, views, Pairing("number_of_individuals", "individuals", "R2.population", "population counter vs individuals[*]"), loop_iters=iters)
     ctx.assume("user callbacks (distributions, routing functions, disciplines, baulking functions) do not raise")
     ctx.assume("attributes of Individual objects set by the node (class_change_date, reneging_date, route, PS fields) are not tracked by R9: they are read under the same configuration guard that assigns them")
 
@@ -378,7 +382,7 @@ def counter_table(ctx, P):
             if meth == "<other>":
                 raising_default = False
                 break
-            got[meth] = unparse(lam[0].d["value_node"].body) if len(lam) == 1 else "%d counters selected" % len(lam)
+            got[meth] = unparse(rules.inline_locals(fn, lam[0].d["value_node"].body)) if len(lam) == 1 else "%d counters selected" % len(lam)
     for k, v in want.items():
         ob.ok(k, "%s -> %s" % (k, got.get(k)))
         if got.get(k) != v:
